@@ -22,7 +22,7 @@ func init() {
 			"(R1) on every call path between the producer of ErrWasmDeterministicExec and the tier-1/tier-2 error classifiers, each fmt.Errorf that forwards an in-flight error wraps it with %w, so errors.Is still recognises the deterministic failure; " +
 			"(R2) toGRPCError (tier 2) and toConnectError (tier 1) map the same predicates to the same codes (deterministic wasm failure, store too big and invalid-argument errors → InvalidArgument; cancel; deadline), the remote worker treats InvalidArgument as final and every other receive/connect error as retryable, and the retry loop retries only retryable errors and turns anything else into a fatal error; " +
 			"(R3) a failed job or merge ends the scheduler loop with that error, and that error is returned by ParallelProcessor.Run and runParallelProcess; " +
-			"(R4) nothing is sent after a failure (send only after executeModules succeeded) and the linear phase only starts from stores that are exactly at the hand-off block (FinalStoreMap fails otherwise). Also (R4) in tier 2's ProcessRange every path after the request is counted in registers or performs the counting-out.",
+			"(R4) nothing is sent after a failure (send only after executeModules succeeded) and the linear phase only starts from stores that are exactly at the hand-off block (FinalStoreMap fails otherwise). Also (R4) in tier 2's ProcessRange every path after the request is counted in registers or performs the counting-out. Also (R2) a failure of the tier-2 transport ends a job only through a classification; (R3) the error-discipline contradiction rules are silent on all server-side packages.",
 		NotCovered:  "Completion with equal outputs under injected transient faults; timing of retries; behaviour of the gRPC transport.",
 		Assumptions: []string{"gRPC and connect codes share numeric values", "derr.RetryContext stops on a FatalError"},
 	})
@@ -954,6 +954,10 @@ func runC16(p *core.Prog, r *core.Report) {
 	r.Guard("C16.R1", "wasmCall", "where the deterministic marker is attached", func() { checkWasmCallClassification(p, r, "C16.R1") })
 	r.Guard("C16.R4", "OnStreamTerminated", "graceful end only", func() { checkOnStreamTerminated(p, r, "C16.R4") })
 	r.GuardExact("C16.R4", "request-slot", "counting-in paired with counting-out", func() { checkRequestSlotPaired(p, r, "C16.R4") })
+	r.GuardExact("C16.R2", "transport-errors", "transport errors are classified", func() { checkTransportErrorsClassified(p, r, "C16.R2") })
+	r.GuardExact("C16.R3", "error-discipline", "errors are tested where they are produced", func() {
+		checkErrorDiscipline(p, r, "C16.R3", []string{"pipeline", "orchestrator", "service", "storage", "manifest", "block", "sqe", "wasm", "reqctx"}, 300)
+	})
 	r.Guard("C16.R4", "stream-end", "failed step never classified EOF", func() { checkStreamEndClassification(p, r, "C16.R4") })
 	r.MinInstances("C16.R1", 8)
 	r.MinInstances("C16.R2", 16)
